@@ -282,9 +282,22 @@ fn run_safety(cfg: &Cfg) -> ! {
         let (bw, bh, vp) = cfgs[(i % nc) as usize];
         check_safety(&t, SafetyCfg { proj: [0u8, 1, 4][(i / 14 % 3) as usize], bw, bh, vp, flags: [13, 0, 9][(i % 3) as usize], sub: true }, r);
     }));
+    // tessellated walls (2 x nx x ny triangles) at small tilts: many primitives with (nearly) equal depth keys,
+    // through every depth_sort / cull / test combination
+    let tilts = [0.0f32, 1e-6, 2e-5, 3e-4, 1e-3, 0.02, 0.3, 1.0];
+    rep.merge(par_range(cfg, tilts.len() as u64 * tilts.len() as u64 * 3 * 36 * 3, |i, r| {
+        let nt = tilts.len() as u64;
+        let (tx, ty, g, fl, pj) = (tilts[(i % nt) as usize], tilts[(i / nt % nt) as usize], i / nt / nt % 3, (i / nt / nt / 3 % 36) as u32, i / nt / nt / 108);
+        let (nx, ny) = [(2usize, 2usize), (5, 3), (6, 6)][g as usize];
+        let mut soup = vec![];
+        let p = |ix: usize, iy: usize| -> [f32; 3] { let (x, y) = (ix as f32 / nx as f32 * 2.4 - 1.2, iy as f32 / ny as f32 * 2.4 - 1.2); [x, y, 1.5 + tx * x + ty * y] };
+        for iy in 0..ny { for ix in 0..nx { soup.extend([p(ix, iy), p(ix + 1, iy), p(ix + 1, iy + 1), p(ix, iy), p(ix + 1, iy + 1), p(ix, iy + 1)]); } }
+        let (bw, bh, vp) = cfgs[(i % nc) as usize];
+        check_safety(&soup, SafetyCfg { proj: [0u8, 1, 4][pj as usize], bw, bh, vp, flags: fl, sub: i % 2 == 0 }, r);
+    }));
     rep.sample(0, || obj! {"view_space_triangle" => vec![vec![-1000.0f32, 3.0, 1.0], vec![0.0, 0.0, 0.0], vec![3.0, -1.0, 1000.0]], "projection" => "perspective(1,1,1..1000)", "buffer" => "7x5 sub-view, viewport (2,1)..(5,4)", "flags" => "cull Back, test Less"});
     rep.finish(cfg, "exploration",
-        "view-space triangle soups: every ordered vertex triple (repeats included: degenerate and zero-area triangles) over an adversarial lattice in units of near (0, +-0.5, +-1, +-3, +-1000; z behind the eye, 0, on near, near(1+2^-20), far/2, far, far(1+2^-20), 1000) through the library's own perspective (far/near 2 and 1000, focal 0.5/1/2) and orthographic matrices and viewport(), into buffers 1x1..16x16 with full, 1x1, interior and edge-touching viewports, owned and strided sub-view targets, with 4 Context flag sets by rotation; plus all 144 flag combinations x 256 soups of 1-3 (coincident / degenerate) triangles x 3 projections, and sub-pixel triangles of size 2^-4..2^-17 at every lattice point. Oracle: no panic, every cell outside the viewport (incl. the enclosing parent buffers) keeps its sentinel, no NaN in the depth buffer. non-trivial = the scene wrote at least one cell.",
+        "view-space triangle soups: every ordered vertex triple (repeats included: degenerate and zero-area triangles) over an adversarial lattice in units of near (0, +-0.5, +-1, +-3, +-1000; z behind the eye, 0, on near, near(1+2^-20), far/2, far, far(1+2^-20), 1000) through the library's own perspective (far/near 2 and 1000, focal 0.5/1/2) and orthographic matrices and viewport(), into buffers 1x1..16x16 with full, 1x1, interior and edge-touching viewports, owned and strided sub-view targets, with 4 Context flag sets by rotation; plus all 144 flag combinations x 256 soups of 1-3 (coincident / degenerate) triangles x 3 projections, sub-pixel triangles of size 2^-4..2^-17 at every lattice point, and tessellated walls of 8/30/72 triangles at tilts 0..1 (many nearly equal depth keys) under 36 cull/sort/test combinations. Oracle: no panic, every cell outside the viewport (incl. the enclosing parent buffers) keeps its sentinel, no NaN in the depth buffer. non-trivial = the scene wrote at least one cell.",
         &["|coordinate| <= 1000 x near, far/near <= 1000", "clip-space origin unreachable through these matrices (see DESIGN C02)"]);
 }
 
@@ -408,6 +421,10 @@ fn order_pool() -> Vec<STri> {
         mk([[-0.3, -0.3], [0.4, -0.2], [0.1, 0.5]], [5.0, 0.3, 1.0], 0.45),
         // far backdrop
         mk([[-0.95, -0.95], [0.95, -0.95], [0.0, 0.95]], [8.0; 3], 0.55),
+        // a near triangle far off the view axis and a slightly farther one on the axis, overlapping around (0.3, 0.3):
+        // nearer by depth, but farther from the eye by Euclidean distance
+        mk([[0.2, 0.2], [1.0, 0.3], [0.4, 1.0]], [1.0; 3], 0.65),
+        mk([[-0.3, -0.3], [0.6, -0.2], [0.3, 0.6]], [1.2; 3], 0.75),
     ]
 }
 
@@ -417,7 +434,7 @@ fn run_order(cfg: &Cfg) -> ! {
     let np = pool.len();
     let mut scenes: Vec<Vec<usize>> = vec![];
     for a in 0..np { for b in a + 1..np { scenes.push(vec![a, b]); for c in b + 1..np { scenes.push(vec![a, b, c]); for d in c + 1..np { scenes.push(vec![a, b, c, d]); if !quick { for e in d + 1..np { scenes.push(vec![a, b, c, d, e]); } } } } } }
-    if !quick { for s in [[0, 1, 5, 6, 12, 13], [2, 3, 4, 7, 8, 9]] { scenes.push(s.to_vec()); } }
+    if !quick { for s in [[0, 1, 5, 6, 12, 13], [2, 3, 4, 7, 8, 9], [0, 9, 11, 13, 14, 15]] { scenes.push(s.to_vec()); } }
     let ns = scenes.len() as u64;
     let mut rep = par_range(cfg, ns, |i, r| {
         let sc = Scene { tris: scenes[i as usize].iter().map(|&k| pool[k].clone()).collect(), bw: 8, bh: 8, vp: (0, 0, 8, 8) };
@@ -428,7 +445,7 @@ fn run_order(cfg: &Cfg) -> ! {
     });
     rep.set("scenes", ns);
     rep.finish(cfg, "model_checking",
-        "explicit-state search per scene of n<=4 (thorough <=6) triangles on an 8x8 Framebuf: state = (set of submitted triangles, colour buffer, depth buffer); transition = one real render() call with ANY non-empty ordered subset of the not yet submitted triangles x depth_sort in {None, FrontToBack, BackToFront}; states deduplicated on the full tuple; invariant in every state: each pixel holds colour and depth of the nearest (largest 1/w) submitted triangle covering it, where coverage and depth per triangle come from solo renders (differential oracle) and pixels with exactly equal depths are exempt; plus: depth test off + BackToFront == depth-buffered image for scenes with disjoint depth ranges; scenes of <= 3 triangles are explored a second time with a checkerboard-discarding fragment shader. Scenes: all 2-, 3- and 4-subsets (thorough: also all 5-subsets and two 6-subsets) of a 14-triangle pool with overlapping, interpenetrating, partially clipped, culled-away and coincident-footprint members.",
+        "explicit-state search per scene of n<=4 (thorough <=6) triangles on an 8x8 Framebuf: state = (set of submitted triangles, colour buffer, depth buffer); transition = one real render() call with ANY non-empty ordered subset of the not yet submitted triangles x depth_sort in {None, FrontToBack, BackToFront}; states deduplicated on the full tuple; invariant in every state: each pixel holds colour and depth of the nearest (largest 1/w) submitted triangle covering it, where coverage and depth per triangle come from solo renders (differential oracle) and pixels with exactly equal depths are exempt; plus: depth test off + BackToFront == depth-buffered image for scenes with disjoint depth ranges; scenes of <= 3 triangles are explored a second time with a checkerboard-discarding fragment shader. Scenes: all 2-, 3- and 4-subsets (thorough: also all 5-subsets and two 6-subsets) of a 16-triangle pool with overlapping, interpenetrating, partially clipped, culled-away and coincident-footprint members.",
         &["per-triangle coverage/depth taken from solo renders (validated separately by C01/C04/C05)", "depth test Less, depth writes on"]);
 }
 
